@@ -52,6 +52,38 @@ func (c *FCtx) evalCall(st *State, call *ast.CallExpr) []Val {
 			key = "sha3.ShakeHash." + fn.Name()
 		}
 	}
+	switch key {
+	case "bytes.NewBuffer":
+		c.note("bytes.Buffer + fmt.Fprint are modelled as an abstract text builder (T5)")
+		return []Val{TXV{Sym("str_empty", "Str"), c.info.TypeOf(call)}}
+	case "fmt.Fprint":
+		id, ok := call.Args[0].(*ast.Ident)
+		if !ok {
+			fail("fmt.Fprint into something that is not a buffer variable")
+		}
+		cell := c.varCell(st, c.info.ObjectOf(id))
+		tx, ok := st.cells[cell].(TXV)
+		if !ok {
+			fail("fmt.Fprint into a value that is not a modelled bytes.Buffer")
+		}
+		t := tx.T
+		for _, a := range call.Args[1:] {
+			t = App("sconcat", "Str", t, c.strOf(st, c.eval(st, a)))
+		}
+		st.cells[cell] = TXV{t, tx.Typ}
+		st.written[cell] = true
+		nw := Sym(c.freshName("fprint$n"), SInt)
+		st.assume(Le(Num(0), nw))
+		return []Val{SV{nw, types.Typ[types.Int]}, SV{False(), types.Universe.Lookup("error").Type()}}
+	case "bytes.Buffer.String":
+		tx, ok := c.eval(st, recvExpr).(TXV)
+		if !ok {
+			fail("String() of a value that is not a modelled bytes.Buffer")
+		}
+		lv := c.freshVal(st, "bufstr", types.Typ[types.String]).(LV)
+		lv.Abs = tx.T
+		return []Val{lv}
+	}
 	if strings.HasPrefix(key, "sha3.") {
 		if vs, ok := c.xofCall(st, key, call, recvExpr); ok {
 			return vs
